@@ -4,6 +4,7 @@
 From Coq Require Import List ZArith NArith Bool String.
 From GrolGen Require Import Gen_Consts.
 From GrolModel Require Import Ast Lexer Parser Printer Frontend Values Cmp Maps SaveLoad.
+From GrolProofs Require Import SaveLoad_roundtrip.
 Import ListNotations.
 Local Open Scope N_scope.
 
@@ -40,6 +41,11 @@ Proof. vm_compute. reflexivity. Qed.
 (* every in-domain example: its saved line reads back (model lexer + parser + literal evaluator, the model's own
    decimal conversion) as the same binding *)
 Example C14_roundtrip_examples_ok : forallb (reads_back (bytes_of_string "k")) in_dom_examples = true.
+Proof. vm_compute. reflexivity. Qed.
+
+(* the guard of the proved round trip (the model's decimal conversion inverts the model's float formatter on the
+   floats of the value) holds on every example: subnormal, largest, 0.1, 1e20 (integer text beyond int64), ... *)
+Example C14_examples_float_guard : forallb (floats_conv dec_conv) in_dom_examples = true.
 Proof. vm_compute. reflexivity. Qed.
 
 (* ---- refutation witnesses (each replays on the implementation: known_findings.json) *)
